@@ -477,11 +477,13 @@ def col_sub(ft, a, b):
     """columns a..b-1 of a feature spec"""
     out = {k: v for k, v in ft.items() if k not in ('cells', 'names', 'widths', 'C')}
     out['C'] = b - a
-    out['names'] = ft['names'][a:b]
+    out['names'] = list(ft['names'][a:b])
+    if 'keys' in out:
+        out['keys'] = list(out['keys'])
     if ft['kind'] == 'dict':
-        out['cells'] = {k: [row[a:b] for row in ft['cells'][k]] for k in ft['keys']}
+        out['cells'] = {k: [[list(c) for c in row[a:b]] for row in ft['cells'][k]] for k in ft['keys']}
     else:
-        out['cells'] = [row[a:b] for row in ft['cells']]
+        out['cells'] = [[list(c) for c in row[a:b]] for row in ft['cells']]
     if ft['kind'] == 'met':
         out['widths'] = ft['widths'][a:b]
     return out
